@@ -6,6 +6,7 @@ export GOFLAGS=-mod=mod GOPROXY=off GOSUMDB=off GOTOOLCHAIN=local
 P=$1; X=$2; BASE=${SEEDSRC:-/tmp/seedout}; SRC=$BASE/$P/$X; PATCH=${3:-$SRC/patch.diff}; NAME=${4:-$X}
 WT=/tmp/wt/$P; OUT=/verif/seeded/$P-$NAME
 HEAD=$(git -C /repo rev-parse HEAD)
+[ -d $WT ] || git -C /repo worktree add -q --detach $WT HEAD
 cd $WT || exit 2
 git checkout -q -- . ; git clean -fdq; git checkout -q --detach $HEAD || exit 2
 git apply --check "$PATCH" 2>/dev/null || { echo "$P-$NAME: PATCH-DOES-NOT-APPLY"; exit 3; }
